@@ -65,8 +65,12 @@ Res(v, st, ev)   == [s |-> "ok", w |-> "", v |-> v, st |-> st, ev |-> ev]
 Fail(o, st, ev)  == [s |-> o.s, w |-> o.w, v |-> 0, st |-> st, ev |-> ev]      \* o: a failed outcome of MiniCTypes
 UbR(w, st, ev)   == [s |-> "ub", w |-> w, v |-> 0, st |-> st, ev |-> ev]
 
-\* record an evaluation (integer typed nodes only)
-Note(pi, id, v) == IF N(pi, id).ty \in IntTypes THEN <<<<id, v>>>> ELSE <<>>
+\* record an evaluation (integer typed nodes only): <<node, value, alt>>.  alt = value, except for a simple
+\* assignment where alt is the value of the right operand before its conversion to the type of the left one:
+\* cppcheck copies the values of the right operand to the `=` token unchanged (lib/vf_settokenvalue.cpp), so a
+\* fact printed on `=` is read as a fact about either of the two.
+Note2(pi, id, v, alt) == IF N(pi, id).ty \in IntTypes THEN <<<<id, v, alt>>>> ELSE <<>>
+Note(pi, id, v) == Note2(pi, id, v, v)
 
 \* finish an operator node: o is the outcome of the value computation
 Done1(pi, id, o, st, ev) == IF o.s = "ok" THEN Res(o.v, st, ev \o Note(pi, id, o.v)) ELSE Fail(o, st, ev)
@@ -150,7 +154,7 @@ E(pi, id, st) ==
          IF l.s # "ok" THEN [l EXCEPT !.ev = r.ev \o l.ev] ELSE
          LET c == IF n.ty = "ptr" THEN Ok(r.v) ELSE Conv(pl, n.ty, r.v)
              ev == r.ev \o l.ev
-         IN IF c.s # "ok" THEN Fail(c, l.st, ev) ELSE Res(c.v, Write(l.st, l.v, c.v), ev \o Note(pi, id, c.v))
+         IN IF c.s # "ok" THEN Fail(c, l.st, ev) ELSE Res(c.v, Write(l.st, l.v, c.v), ev \o Note2(pi, id, c.v, r.v))
     [] n.k = "asg" /\ n.op # "=" ->           \* E1 op= E2  is  E1 = E1 op E2  with E1 evaluated once (6.5.16.2)
          LET l == LV(pi, n.a, st) IN
          IF l.s # "ok" THEN l ELSE
@@ -291,11 +295,11 @@ Exec(pi, item, st, rest, rvv) ==
                     ELSE LET c == Conv(PL(pi), asg.ty, rvv[1]) IN
                          IF c.s # "ok" THEN Stop(Fail(c, l.st, l.ev), caller)
                          ELSE Go(Write(l.st, l.v, c.v), rest,
-                                 l.ev \o Note(pi, n.b, rvv[1]) \o Note(pi, n.a, c.v), caller, Write(l.st, l.v, c.v), <<>>)
+                                 l.ev \o Note(pi, n.b, rvv[1]) \o Note2(pi, n.a, c.v, rvv[1]), caller, Write(l.st, l.v, c.v), <<>>)
     [] tag = "B" -> Go(st, rest, <<>>, st, st, rvv)
 
 -----------------------------------------------------------------------------
-NoBad == [set |-> FALSE, node |-> 0, v |-> 0, fact |-> 0]
+NoBad == [set |-> FALSE, node |-> 0, v |-> 0, fact |-> 0, cls |-> ""]
 
 (* Facts.  P(pi).nf[node] = sequence of facts [k, v, t, par] about the node.  *)
 (*   eq ne gt lt       the value v' of the node satisfies v' = v, # v, > v, < v *)
@@ -341,13 +345,27 @@ Holds(pi, id, f, v, pre, post) ==
 \* <<i, j>>: the j-th fact of the node of the i-th evaluation is contradicted
 Contradictions(pi, ev, pre, post) ==
   UNION {{<<i, j>> : j \in {j \in 1..Len(P(pi).nf[ev[i][1]]) :
-                               ~Holds(pi, ev[i][1], P(pi).nf[ev[i][1]][j], ev[i][2], pre, post)}} : i \in 1..Len(ev)}
+                               /\ ~Holds(pi, ev[i][1], P(pi).nf[ev[i][1]][j], ev[i][2], pre, post)
+                               /\ (ev[i][3] # ev[i][2] => ~Holds(pi, ev[i][1], P(pi).nf[ev[i][1]][j], ev[i][3], pre, post))}}
+         : i \in 1..Len(ev)}
+
+\* Defect classes.  A contradicted symbolic equality whose two sides differ by a multiple of 256 is the known
+\* cppcheck defect "symbolic values ignore narrowing conversions" (a value that went through unsigned char / short
+\* keeps its symbolic relation, a decrement of an unsigned char is recorded as +255): such contradictions are
+\* reported under the class key "sym-mod256" instead of a per-program key.  Everything else has class "".
+ClassOf(pi, f, v, pre, post) ==
+  IF f.k # "seq" THEN ""
+  ELSE LET sv == SymVal(pi, f, pre, post) IN
+       IF sv = <<>> \/ ~SafeAdd(sv[1], f.v) THEN ""
+       ELSE LET x == sv[1] + f.v IN
+            IF SafeSub(v, x) /\ (v - x) % 256 = 0 THEN "sym-mod256" ELSE ""
 
 FirstContradiction(pi, ev, pre, post) ==
   LET cs == Contradictions(pi, ev, pre, post) IN
   IF cs = {} THEN NoBad
   ELSE LET c == CHOOSE c \in cs : \A d \in cs : c[1] < d[1] \/ (c[1] = d[1] /\ c[2] <= d[2])
-       IN [set |-> TRUE, node |-> ev[c[1]][1], v |-> ev[c[1]][2], fact |-> c[2]]
+           f == P(pi).nf[ev[c[1]][1]][c[2]]
+       IN [set |-> TRUE, node |-> ev[c[1]][1], v |-> ev[c[1]][2], fact |-> c[2], cls |-> ClassOf(pi, f, ev[c[1]][2], pre, post)]
 
 \* nodes carrying facts among the evaluated ones (ghost `seen`: which facts an execution exercised)
 FactNodes(pi, ev) == {ev[i][1] : i \in {i \in 1..Len(ev) : P(pi).nf[ev[i][1]] # <<>>}}
@@ -376,7 +394,8 @@ Level(pi) == IF Prod(pi, 2, 1) <= Cap THEN 2 ELSE IF Prod(pi, 1, 1) <= Cap THEN 
 RECURSIVE Vecs(_, _, _)
 Vecs(pi, lv, j) == IF j > Len(ParamTypes(pi)) THEN {<<>>}
                    ELSE {<<x>> \o t : x \in Dom(pi, ParamTypes(pi)[j], lv), t \in Vecs(pi, lv, j + 1)}
-Inputs(pi) == Vecs(pi, Level(pi), 1)
+\* a program may pin one input vector (field only; used by --replay and by the trace of a counterexample)
+Inputs(pi) == IF P(pi).only # <<>> THEN {P(pi).only} ELSE Vecs(pi, Level(pi), 1)
 
 
 (* The batch respects the program format and the type annotations are the derived types. *)
